@@ -530,6 +530,15 @@ package workflow
 //@   on aftercall roleTemplate.copy : tc = result ; tcopied = true
 //@   ensures tcopied && c is *iteratorRole && c.(*iteratorRole).template == tc
 
+// C15 (an iterator yields one child per element of its range; only roles whose enabled expression is false are absent):
+// IsEnabled is what the parent's filter asks after the iterator was processed. The iterator's own template is never
+// processed - its copies are, one per element - so an enabled EXPRESSION is still raw text in the template; an iterator
+// that has generated roles left (the disabled ones were filtered out by its own ProcessTemplates) is not pruned.
+//@ func (i *iteratorRole) IsEnabled() (b bool)
+//@   property C15
+//@   ensures i != nil && i.template != nil && len(i.Roles) > 0 ==> b
+//@   ensures i == nil || i.template == nil ==> !b
+
 // C15: a template error while resolving an iterator's range expression makes the load fail (the JSON decoding of the
 // resolved text is outside the contracts)
 //@ func (f *iteratorRangeExpr) GetRange(varStack map[string]string) (ran []string, err error)
